@@ -608,4 +608,22 @@ theorem patch_roundtrip (strings : List Int) (es mid : List SwEntry)
 example : patchOutTable [4096, 8192, 100, 6442450944] [⟨0, 9⟩, ⟨100, 12⟩, ⟨4096, 10⟩, ⟨6442450944, 13⟩]
     = some [⟨-1, 9⟩, ⟨2, 12⟩, ⟨0, 10⟩, ⟨3, 13⟩] := by decide
 
+/-! ## (e) the patch list -/
+
+/-- **all_string_switches_patched**: the patch list handed to `save_binary` names exactly the string switches of the
+    program, in generation order — unconditionally: the code appends to A_PATCH for every NODE_SWITCH_STRINGS whatever
+    the pragma state when the switch is generated (the site is read from icode.c on every run), so a
+    `#pragma save_binary` below a function, in an include file, or re-enabled after `#pragma no_save_binary` still
+    finds every table in the list when `epilog` decides to save. -/
+theorem all_string_switches_patched (evs : List GenEv) : genPatches evs = stringSwitchSites evs := by
+  induction evs with
+  | nil => rfl
+  | cons e rest ih => cases e <;> simp [genPatches, stringSwitchSites, ih]
+
+/-- in particular for a program that is saved although the pragma came after its switches -/
+example :
+    let evs := [GenEv.stringSwitch 12, .otherSwitch 40, .stringSwitch 90, .pragmaSaveBinary false, .stringSwitch 130,
+                .pragmaSaveBinary true]
+    savedAtEnd evs = true ∧ genPatches evs = [12, 90, 130] := by decide
+
 end NV.C17
